@@ -178,6 +178,7 @@ type world struct {
 	invMap          map[string]*inv
 	invList         []*inv
 	curDep          int
+	cn              cancelState // cancel.go
 }
 
 // curWorld is the world of the case being served (hook mode: api.go's trace points have no context).
@@ -387,6 +388,7 @@ func (w *world) execEvent() {
 	}
 	w.closeOpen()
 	w.invoked++
+	w.cancelAtCall()
 }
 
 // producer maps the key of an object to the invocation that returned it: list elements and edge
@@ -599,6 +601,7 @@ func edgesResolver(name string) func(ctx graphql.FieldContext, zero bool) (inter
 		o := w.ensureOpen(key, zero, false)
 		o.inv = w.noteInv(key, parentKey(ctx.Object), true)
 		w.invoked++
+		w.cancelAtCall()
 		sp := w.spec(key)
 		w.invs = append(w.invs, key+":"+sp.Mode+":"+sp.Out+":"+sp.Gate)
 		less := func(a, b interface{}) bool { return a.(int) < b.(int) }
@@ -716,6 +719,7 @@ func edgeGetter1(name string, ctx graphql.FieldContext, minTime, maxTime time.Ti
 	o := w.ensureOpen(key, isZeroLimit(ctx.Arguments), true)
 	o.inv = w.noteInv(key, parentKey(ctx.Object), true)
 	w.invoked++
+	w.cancelAtCall()
 	total := w.spec(key).N + 2
 	// one spec per range query, identified by the range itself (asked again for every field that needs
 	// the edges when the page size is zero)
@@ -824,6 +828,10 @@ func (w *world) idleEnter() {
 	}
 	w.rounds = append(w.rounds, ro)
 	w.addEvent(event{kind: "idle", round: w.round})
+	cancelHere := !w.forceSync && w.c.CancelRound > 0 && w.round == w.c.CancelRound
+	if cancelHere && w.c.CancelMode == "before-release" {
+		w.cancelNow() // the tasks released below finish on a cancelled context
+	}
 	// Release the next group of gated tasks: k tasks in rank order, and further ones until a task the
 	// executor itself awaits is among them — a resolution consumed by a chain/join goroutine makes the
 	// idle handler loop instead of returning, so it cannot be the only thing this round provides.
@@ -858,17 +866,31 @@ func (w *world) idleEnter() {
 			post = append(post, t)
 		}
 	}
-	if len(post) > 0 {
+	if cancelHere && w.c.CancelMode == "after-pre" {
+		w.cancelNow() // bodies have returned, the handler has not received anything yet
+	}
+	cancelInside := cancelHere && w.c.CancelMode == "inside"
+	if len(post) > 0 || cancelInside {
 		w.aux.Add(1)
 		n := int((h >> 8) % 4)
+		first := (h>>12)%2 == 0
 		go func() {
 			defer w.aux.Done()
 			yield(n)
 			if n == 3 {
 				time.Sleep(30 * time.Microsecond)
 			}
+			if cancelInside && first {
+				// the handler is (about to be) blocked in its receive; the tasks finish afterwards
+				time.Sleep(time.Duration(50+(h>>16)%400) * time.Microsecond)
+				w.cancelNow()
+			}
 			for _, t := range post {
 				close(t.gate)
+			}
+			if cancelInside && !first {
+				yield(int((h >> 14) % 3)) // races with the bodies' return and the hand-off
+				w.cancelNow()
 			}
 		}()
 	}
@@ -1106,6 +1128,9 @@ func buildAPI() *apifu.API {
 		if w := worldOf(r.Context); w != nil && hookMode && w.execs > 0 {
 			w.addEvent(event{kind: "start"})
 		}
+		if w := worldOf(r.Context); w != nil {
+			w.execBegins(r.Context)
+		}
 		if w := worldOf(r.Context); w != nil && r.IdleHandler != nil {
 			orig := r.IdleHandler
 			r.IdleHandler = func() {
@@ -1117,6 +1142,7 @@ func buildAPI() *apifu.API {
 		resp := graphql.Execute(r)
 		if w := worldOf(r.Context); w != nil {
 			w.execReturned()
+			w.cn.returned.Add(1)
 		}
 		return resp
 	}
